@@ -406,8 +406,11 @@ func (eng) Run(c core.CaseDesc, tier string) *core.CaseResult {
 		return res
 	}
 	r := gen.NewRand(c.Seed, 13)
-	modes := []string{"dispose", "double", "concurrent", "parentctx", "amhelp", "force"}
+	modes := []string{"dispose", "double", "concurrent", "parentctx", "amhelp", "force", "mixin-parentctx"}
 	mode := modes[r.IntN(len(modes))]
+	// the Disposed mix-in with its handlers: disposed through amhelp.Dispose, or
+	// by the cancelation of the parent context
+	mixin := mode == "amhelp" || mode == "mixin-parentctx"
 	origins := []string{"outside", "negotiation", "final", "eval"}
 	origin := origins[r.IntN(len(origins))]
 	landings := []string{"idle", "queue-running", "mid-negotiation", "mid-final", "during-eval", "handler-parked-long", "eval-queued",
@@ -418,11 +421,12 @@ func (eng) Run(c core.CaseDesc, tier string) *core.CaseResult {
 	if landing == "handler-parked-long" || landing == "eval-queued" {
 		withHandlers = true
 		origin = "outside"
-		if mode == "force" || mode == "parentctx" || mode == "amhelp" {
+		if mode == "force" || mode == "parentctx" || mixin {
 			mode = "dispose"
+			mixin = false
 		}
 	}
-	if mode == "parentctx" || origin == "negotiation" || origin == "final" || landing == "mid-negotiation" || landing == "mid-final" || mode == "amhelp" {
+	if mode == "parentctx" || origin == "negotiation" || origin == "final" || landing == "mid-negotiation" || landing == "mid-final" || mixin {
 		withHandlers = true
 	}
 	if mode == "force" {
@@ -435,7 +439,11 @@ func (eng) Run(c core.CaseDesc, tier string) *core.CaseResult {
 	nSubs := r.IntN(21)
 	nDisp := r.IntN(4)
 	nMut := r.IntN(5)
-	if landing == "idle" || mode == "force" {
+	if landing == "idle" || mode == "force" || mode == "mixin-parentctx" {
+		// (mixin-parentctx: the Disposing mutation the handler loop issues after
+		// the cancelation has a grace period of 2*DisposeTimeout to get through
+		// the queue; mutators flooding the queue would make that a race of
+		// wall-clock times)
 		nMut = 0
 	}
 
@@ -444,7 +452,7 @@ func (eng) Run(c core.CaseDesc, tier string) *core.CaseResult {
 	defer parentCancel()
 	schema := am.Schema{"A": {}, "B": {Multi: true}, "C": {Auto: r.IntN(2) == 0}, "D": {Remove: am.S{"A"}}}
 	names := []string{"A", "B", "C", "D"}
-	if mode == "amhelp" {
+	if mixin {
 		schema = am.SchemaMerge(schema, ssam.DisposedSchema)
 		// the mix-in references Start
 		schema["Start"] = am.State{}
@@ -456,7 +464,7 @@ func (eng) Run(c core.CaseDesc, tier string) *core.CaseResult {
 		// would (legitimately) cancel the state-based disposal mutations
 		HandlerTimeout: 20 * time.Second, QueueLimit: 60000})
 	m.DisposeTimeout = 50 * time.Millisecond
-	if landing == "handler-parked-long" {
+	if landing == "handler-parked-long" || mode == "mixin-parentctx" {
 		// the graceful wait for the running queue must outlast the parked handler
 		m.DisposeTimeout = 3 * time.Second
 	}
@@ -494,7 +502,7 @@ func (eng) Run(c core.CaseDesc, tier string) *core.CaseResult {
 				go func() { defer wg.Done(); m.Dispose() }()
 			}
 			wg.Wait()
-		case "parentctx":
+		case "parentctx", "mixin-parentctx":
 			parentCancel()
 		case "amhelp":
 			amhelp.Dispose(m)
@@ -528,7 +536,7 @@ func (eng) Run(c core.CaseDesc, tier string) *core.CaseResult {
 			}
 			return true
 		})
-		if mode == "amhelp" {
+		if mixin {
 			dh := &dispHandlers{&ssam.DisposedHandlers{}}
 			if _, err := m.HandlersBind(dh); err != nil {
 				res.Inconclusive = "bind DisposedHandlers: " + err.Error()
@@ -549,7 +557,7 @@ func (eng) Run(c core.CaseDesc, tier string) *core.CaseResult {
 	for i := 0; i < nDisp; i++ {
 		ii := i
 		fn := func(id string, ctx context.Context) { dispRuns[ii].Add(1) }
-		if mode == "amhelp" && r.IntN(2) == 0 {
+		if mixin && r.IntN(2) == 0 {
 			amhelp.DisposeBind(m, fn)
 		} else {
 			m.OnDispose(fn)
@@ -606,7 +614,7 @@ func (eng) Run(c core.CaseDesc, tier string) *core.CaseResult {
 			defer mwg.Done()
 			for i := 0; i < 400 && !stop.Load(); i++ {
 				kinds := []string{"add", "remove", "set", "canadd"}
-				if mode == "amhelp" {
+				if mixin {
 					// a Set would legitimately deactivate Disposing and cancel the disposal
 					kinds = []string{"add", "remove", "canadd"}
 				}
